@@ -15,7 +15,7 @@ Heavy == (IF IOEnv.VERIF_C11 = "1" THEN {"C11"} ELSE {})
 (* Rules whose violation does not invalidate the abstract state: the       *)
 (* match-quality rules say nothing about how the stream advances.          *)
 Soft == {"C19.right_maximal", "C19.left_maximal", "C19.run_literals",
-         "C12.match_longest", "C12.literal_justified", "C11.cost_optimal", "C11.not_above_witness", "C00.witness_invalid"}
+         "C12.match_longest", "C12.literal_justified", "C12.no_longer_match", "C11.cost_optimal", "C11.not_above_witness", "C00.witness_invalid"}
 
 MaxHard == 3   \* failing events recorded per trace before the rest is skipped
 
